@@ -468,6 +468,8 @@ __strfd_get_md(struct strpd_s *d, struct dt_d_s this)
 	struct __md_s both = dt_get_md(this);
 	d->m = both.m;
 	d->d = both.d;
+	/* slot D holds the day of the month from now on */
+	d->flags.d_dcnt_p = 0U;
 	return;
 }
 
@@ -614,6 +616,11 @@ __strfd_card(
 		}
 		break;
 	case DT_SPFL_S_MON:
+		if (UNLIKELY(!d->m && (!d->d || d->flags.d_dcnt_p))) {
+			__strfd_get_md(d, that);
+		} else if (UNLIKELY(!d->m)) {
+			__strfd_get_m(d, that);
+		}
 		switch (s.abbr) {
 		case DT_SPMOD_NORM:
 			res = arritostr(
@@ -658,45 +665,46 @@ __strfd_card(
 		buf[res++] = '\n';
 		break;
 
-	case DT_SPFL_N_DCNT_YEAR:
+	case DT_SPFL_N_DCNT_YEAR: {
+		/* %j */
+		int yd;
+
 		switch (that.typ) {
-		case DT_YMD:
-		case DT_BIZDA: {
-			/* %j */
-			int yd;
-			if (LIKELY(!s.bizda)) {
-				yd = __ymd_get_yday(that.ymd);
-			} else {
+		case DT_BIZDA:
+			if (UNLIKELY(s.bizda)) {
 				yd = __bizda_get_yday(
 					that.bizda, __get_bizda_param(that));
+				break;
 			}
-			if (yd >= 0) {
-				res = ui999topstr(
-					buf, bsz, yd,
-					3 - (s.pad == DT_SPPAD_OMIT) << 1U,
-					padchar(s));
-			} else {
-				buf[res++] = '0';
-				buf[res++] = '0';
-				buf[res++] = '0';
-			}
+			yd = __ymd_get_yday(__bizda_to_ymd(that.bizda));
 			break;
-		}
+		case DT_YMCW:
+			yd = __ymd_get_yday(__ymcw_to_ymd(that.ymcw));
+			break;
 		case DT_YD:
-			res = ui999topstr(
-				buf, bsz, d->d,
-				3 - (s.pad == DT_SPPAD_OMIT) << 1U, padchar(s));
+			yd = that.yd.d;
 			break;
-		case DT_LDN:
-			res = snprintf(buf, bsz, "%u", that.ldn);
-			break;
-		case DT_JDN:
-			res = snprintf(buf, bsz, "%.6f", that.jdn);
+		case DT_YMD:
+		case DT_YWD:
+		case DT_DAISY:
+			yd = dt_get_yday(that);
 			break;
 		default:
-			break;
+			/* no notion of a day in the year */
+			return res;
+		}
+		if (yd >= 0) {
+			res = ui999topstr(
+				buf, bsz, yd,
+				3 - (s.pad == DT_SPPAD_OMIT) << 1U,
+				padchar(s));
+		} else {
+			buf[res++] = '0';
+			buf[res++] = '0';
+			buf[res++] = '0';
 		}
 		break;
+	}
 	case DT_SPFL_N_WCNT_YEAR: {
 		int yw = dt_get_wcnt_year(that, s.wk_cnt);
 		res = ui99topstr(
@@ -713,11 +721,6 @@ __strfd_rom(
 	struct strpd_s *d, struct dt_d_s that)
 {
 	size_t res = 0;
-
-	if (that.typ != DT_YMD) {
-		/* not supported for non-ymds */
-		return res;
-	}
 
 	switch (s.spfl) {
 	default:
@@ -741,9 +744,19 @@ __strfd_rom(
 		}
 		break;
 	case DT_SPFL_N_MON:
+		if (UNLIKELY(!d->m && (!d->d || d->flags.d_dcnt_p))) {
+			__strfd_get_md(d, that);
+		} else if (UNLIKELY(!d->m)) {
+			__strfd_get_m(d, that);
+		}
 		res = ui32tostrrom(buf, bsz, d->m);
 		break;
 	case DT_SPFL_N_DCNT_MON:
+		if (UNLIKELY(!d->m && (!d->d || d->flags.d_dcnt_p))) {
+			__strfd_get_md(d, that);
+		} else if (UNLIKELY(!d->d)) {
+			__strfd_get_d(d, that);
+		}
 		res = ui32tostrrom(buf, bsz, d->d);
 		break;
 	case DT_SPFL_N_WCNT_MON: {
